@@ -12,7 +12,7 @@ import json, re
 from decimal import Decimal as D, getcontext
 from common import *
 
-getcontext().prec = 50
+getcontext().prec = 40
 
 
 # ----------------------------------------------------------------------------- build (profile `sweep`: opt-level 3)
@@ -297,9 +297,10 @@ def calibrate(path, every=1):
                 prev = None
                 continue
             is_curve = '"ev":"curve"' in line
-            if not is_curve and i % every:
+            is_step = '"ev":"step"' in line and '"api":"pub"' in line
+            if not (is_curve or is_step) and i % every:      # every curve point and every run; decoders sampled
                 continue
-            if not (is_curve or '"ev":"dec"' in line or ('"ev":"step"' in line and '"api":"pub"' in line)):
+            if not (is_curve or is_step or '"ev":"dec"' in line):
                 continue
             e = json.loads(line)
             if e.get("panic"):
